@@ -37,6 +37,18 @@ CHECKS = {
    technique="exhaustive single-fault enumeration: every I/O call of every target commit fails in every mode of its kind (errno, short write then errno) via in-process libc interposition; then follow-up transactions on the same handle and a reopen, judged by the reference model, the independent file checker and DB::check()",
    text="For each commit of the scripted histories the calls it issues are counted, then the same history is replayed once per (call, failure mode): commit must return Err without panicking, the same handle must at once show exactly the pre- or post-state, three further transactions (one reusing free pages) must commit and read back, and the file must be well-formed, also after reopening. Thorough adds a second fault at every call of the large follow-up commit.",
    note="Trusted: interposition reaches every I/O call of the commit path; refmodel; fileck. RLIMIT_FSIZE is modelled as the extension/write call failing."),
+ "C04": dict(engine="schedx", cat="model_checking", ref="DESIGN.md §2 C04, §1.5 E2",
+   technique="stateless preemption-bounded (CHESS-style) exploration of all schedules of real reader and writer threads on the real library under a baton scheduler that owns the lock model; scheduling points at every library lock acquisition and every system call on the database fd",
+   text="Every chain of two (thorough: three) writer commits from a menu of six transaction bodies of different dirty-set sizes runs against one or two reader threads under every schedule with at most c preemptions; each reader's dumps must all equal one committed state that is at least as new as every commit completed before the reader began; no panic, no deadlock; the file afterwards holds the last state.",
+   note="Trusted: the lock seam reports every lock operation of db.rs/tx.rs; interposition sees every syscall on the fd; refmodel. Bounds (threads, commits, preemptions) per case in evidence."),
+ "C09": dict(engine="schedx", cat="model_checking", ref="DESIGN.md §2 C09",
+   technique="stateless preemption-bounded exploration of all schedules of 1-3 real writer threads doing read-modify-write increments with 0-2 reader threads, including file growth (remap under the map write lock); deadlock = no enabled thread in the scheduler's lock model; both RwLock priority models",
+   text="Under every schedule within the bound: never two write transactions open at once, each writer reads a counter value not older than the commits completed before it began, the values read are 0..W-1 exactly once and the final value is W, readers see one value, every thread finishes (no deadlock under either RwLock model), and in the liveness scenario a reader is never blocked by an open uncommitted writer.",
+   note="Trusted as for C04. Each thread holds at most one transaction, as the documentation requires."),
+ "C13": dict(engine="schedx", cat="model_checking", ref="DESIGN.md §2 C13",
+   technique="stateless exploration of all schedules (2 openers: complete; 3 openers: preemption-bounded) of opener threads at system-call granularity with flock modelled by the scheduler per inode",
+   text="Two and three openers of the same file, existing or not yet created, each committing a marker while it holds the database: under every explored schedule never two openers inside, every open returns Ok, each opener sees the markers of all openers that closed before its open returned, no deadlock, all markers in the final file.",
+   note="Openers are threads with independent descriptors (flock is per open file description); the library has no process-wide state. A cross-check with real forked processes is not built."),
 }
 
 NA = {}
@@ -77,6 +89,7 @@ def main():
             {"name": "metax", "path": "mc/src/metax.rs", "serves_properties": ["C12"], "kind_free_text": "exhaustive byte/word damage enumeration on header pages, recovered with the real open()"},
             {"name": "crashx", "path": "mc/src/crashx.rs", "serves_properties": ["C02"], "kind_free_text": "crash-point / torn-write enumeration over the logged I/O of each commit, recovery by the real open()"},
             {"name": "faultx", "path": "mc/src/faultx.rs", "serves_properties": ["C11"], "kind_free_text": "per-call I/O fault injection over each commit, follow-up transactions and reopen"},
+            {"name": "schedx", "path": "mc/src/sched.rs, mc/src/schedx.rs, mc/src/c09.rs, mc/src/c13.rs", "serves_properties": ["C04", "C09", "C13"], "kind_free_text": "controlled scheduler for real OS threads running the real library (baton passing, lock model in the scheduler, context-bounded DFS over choice prefixes, subtree jobs spread over worker processes)"},
             {"name": "seqx", "path": "mc/src/seqx.rs", "serves_properties": ["C01", "C03", "C05", "C06", "C07", "C10"], "kind_free_text": "explicit-state BFS over histories of whole transactions executed on the real library in worker processes; state = history, key = structural digest of file + shared in-memory bookkeeping"},
         ],
         "checks": checks,
